@@ -233,6 +233,20 @@ bool Instance::setup_environment(unsigned int flags) {
         env->operational = false;
     }
 
+    // BIP141/BIP342: the items of the initial witness stack are limited like pushes, and a tapscript starts within the stack size limit
+    if (env->operational && (sigver == SigVersion::WITNESS_V0 || sigver == SigVersion::TAPSCRIPT)) {
+        for (const auto& item : stack) {
+            if (item.size() > MAX_SCRIPT_ELEMENT_SIZE) {
+                error = SCRIPT_ERR_PUSH_SIZE;
+                env->operational = false;
+            }
+        }
+        if (env->operational && sigver == SigVersion::TAPSCRIPT && stack.size() > MAX_STACK_SIZE) {
+            error = SCRIPT_ERR_STACK_SIZE;
+            env->operational = false;
+        }
+    }
+
     return env->operational;
 }
 
